@@ -249,6 +249,9 @@ INDEX_WRITERS = {"extract", "set_index", "_set_measured", "__init__", "index"}
 INDEX_WRITERS_PAIRED = {"Envelope.measure", "Envelope.measure_POVM", "Envelope.reorder", "ProductState.measure"}
 
 
+ACTION_NAMES = {"apply_operation", "apply_kraus", "measure", "measure_POVM", "trace_out", "resize", "resize_fock", "expand", "contract", "combine", "reorder"}
+
+
 @rule("BOOK-own")
 def book_own(repo: Repo) -> List[Ob]:
     obs: List[Ob] = []
@@ -282,6 +285,8 @@ def book_own(repo: Repo) -> List[Ob]:
                 n_idx += 1
                 if fi.node.name in INDEX_WRITERS or fi.qualname in INDEX_WRITERS_PAIRED:
                     obs.append(ok("BOOK-own", fi, "index-write", P, n, "index written by a designated bookkeeping site"))
+                elif fi.node.name not in ACTION_NAMES:
+                    obs.append(skip("BOOK-own", fi, "index-write", P, n, "index written by a helper outside the action methods"))
                 else:
                     obs.append(bad("BOOK-own", fi, "index-write", P, n, f"`{src(n)}` is written outside the designated bookkeeping functions"))
     if n_reg < 8 or n_idx < 10:
